@@ -288,7 +288,21 @@ type Runner struct {
 	lastAPIDump []string
 	aux         bool // current step is auxiliary (not part of the transcript)
 	statsFresh  bool // a write transaction has closed since the last open (DB.Stats is refreshed only then)
+	managed     *managedTx
 }
+
+// managedTx is a write transaction run inside DB.Update: the body parks in a goroutine while the
+// runner executes the program's steps on its *Tx, and finally returns nil, returns an error or panics.
+type managedTx struct {
+	ctl     chan string
+	done    chan error
+	foreign any // a panic that is not ours
+}
+
+type managedPanic struct{}
+
+var errManagedBody = errors.New("verif: transaction body returns an error")
+var errManagedPanic = errors.New("verif: transaction body panicked")
 
 // note feeds one observed API result into the transcript hash.
 func (r *Runner) note(format string, a ...any) {
@@ -360,6 +374,16 @@ type FaultOutcome struct {
 // Cleanup releases everything the runner still holds. It must be called in
 // a defer by whoever runs a program.
 func (r *Runner) Cleanup() {
+	if r.managed != nil {
+		m := r.managed
+		r.managed = nil
+		r.Tx = nil
+		func() {
+			defer func() { _ = recover() }()
+			m.ctl <- "error"
+			<-m.done
+		}()
+	}
 	if r.Tx != nil {
 		func() {
 			defer func() { _ = recover() }()
@@ -606,6 +630,11 @@ func (r *Runner) doStep(st *gen.Step) {
 		r.commitMaxSize()
 		return
 	}
+	if r.managed != nil && (st.Op == "commit" || st.Op == "rollback") {
+		r.Sim.Apply(st)
+		r.finishManaged(st)
+		return
+	}
 	exp := r.Sim.Apply(st)
 	switch st.Op {
 	case "open", "reopen":
@@ -649,6 +678,10 @@ func (r *Runner) doStep(st *gen.Step) {
 		r.DB = nil
 		return
 	case "begin":
+		if st.W && st.How == "update" {
+			r.beginManaged(exp)
+			return
+		}
 		tx, err := r.DB.Begin(st.W)
 		if !ErrMatch(exp.Err, err) {
 			r.fail("begin", "Begin(%v) = %v, model %q", st.W, err, exp.Err)
@@ -1127,5 +1160,104 @@ func (r *Runner) commitMaxSize() {
 		}
 	default:
 		r.fail("fault:wrong-error", "commit under an unsatisfiable size limit failed with %v, want the size-limit error", err)
+	}
+}
+
+// beginManaged starts DB.Update in a goroutine and parks its body; the program's steps then run on the body's *Tx.
+func (r *Runner) beginManaged(exp gen.Exp) {
+	m := &managedTx{ctl: make(chan string), done: make(chan error, 1)}
+	ready := make(chan *bolt.Tx, 1)
+	db := r.DB
+	go func() {
+		entered := false
+		err := func() (err error) {
+			defer func() {
+				if x := recover(); x != nil {
+					if _, ours := x.(managedPanic); !ours {
+						m.foreign = x
+					}
+					err = errManagedPanic
+				}
+			}()
+			return db.Update(func(tx *bolt.Tx) error {
+				entered = true
+				ready <- tx
+				switch <-m.ctl {
+				case "commit":
+					return nil
+				case "panic":
+					panic(managedPanic{})
+				}
+				return errManagedBody
+			})
+		}()
+		if !entered {
+			ready <- nil
+		}
+		m.done <- err
+	}()
+	tx := <-ready
+	if tx == nil {
+		err := <-m.done
+		if !ErrMatch(exp.Err, err) || err == nil {
+			r.fail("begin", "Update = %v before running its body, model %q", err, exp.Err)
+		}
+		return
+	}
+	if exp.Err != model.OK {
+		r.fail("begin", "Update ran its body, model expects %q", exp.Err)
+	}
+	r.Tx = tx
+	r.fill = 0
+	r.managed = m
+}
+
+// finishManaged lets the parked body return nil (commit), return an error, or panic.
+func (r *Runner) finishManaged(st *gen.Step) {
+	m := r.managed
+	mode := "commit"
+	if st.Op == "rollback" {
+		mode = "error"
+		if st.How == "panic" {
+			mode = "panic"
+		}
+	}
+	r.statsFresh = true
+	m.ctl <- mode
+	err := <-m.done
+	r.Tx = nil
+	r.managed = nil
+	if m.foreign != nil {
+		r.fail("panic", "panic inside Update: %v", m.foreign)
+		return
+	}
+	switch mode {
+	case "commit":
+		if err != nil {
+			r.fail("commit", "Update: %v", err)
+			return
+		}
+		r.Stats.Commits++
+		s := r.DB.Stats().TxStats
+		r.Stats.Splits, r.Stats.Rebalances, r.Stats.Spills = s.GetSplit(), s.GetRebalance(), s.GetSpill()
+		r.Stats.Transitions["update-commit"]++
+		r.quiescent("after commit (Update)")
+		if r.AfterCommit != nil {
+			r.AfterCommit(r)
+		}
+	case "error":
+		if !errors.Is(err, errManagedBody) {
+			r.fail("update", "Update whose body returned an error returned %v", err)
+		}
+		r.Stats.Rollbacks++
+		r.Stats.Transitions["update-error"]++
+		r.quiescent("after an Update whose body returned an error")
+	case "panic":
+		if !errors.Is(err, errManagedPanic) {
+			r.fail("update", "Update whose body panicked ended with %v", err)
+		}
+		r.Stats.Rollbacks++
+		r.Stats.Transitions["update-panic"]++
+		r.quiescent("after an Update whose body panicked")
 	}
 }
